@@ -47,8 +47,10 @@ class CopyNumber:
       count_tag = self._default["count_tag"]
     if unit_length is None:
       unit_length = self._default["unit_length"]
-    for s in self.segments:
-      cov = s.try_get_coverage(count_tag=count_tag, unit_length=unit_length)
+    # (the coverage of every segment is computed before any tag is set)
+    coverages = [(s, s.try_get_coverage(count_tag=count_tag,
+                     unit_length=unit_length)) for s in self.segments]
+    for s, cov in coverages:
       if cov < mincov:
         cn = 0
       elif cov < single_copy_coverage:
